@@ -88,6 +88,7 @@ type loopInfo struct {
 }
 
 type FuncGen struct {
+	rng map[ssa.Value][2]*big.Int // static intervals of integer values (see rangeOf)
 	env   *Env
 	fn    *ssa.Function
 	key   string
